@@ -47,11 +47,11 @@ type Gate struct {
 	SameID    bool
 	Timeout   time.Duration
 
-	mu       sync.Mutex
-	ch       chan struct{}
-	waiting  bool
-	waitID   string
-	used     bool
+	mu        sync.Mutex
+	ch        chan struct{}
+	waiting   bool
+	waitID    string
+	used      bool
 	Signalled bool // released by the event
 	TimedOut  bool // released by the bounded wait
 	Reached   bool // the waiter reached its point
@@ -272,10 +272,10 @@ type Op struct {
 	Tx     int      `json:"tx"`   // -1 autocommit
 	Level  int      `json:"level,omitempty"`
 	Key    string   `json:"key,omitempty"`
-	Val    string   `json:"val,omitempty"`    // value written
-	Out    string   `json:"out,omitempty"`    // value read
-	Keys   []string `json:"keys,omitempty"`   // GetKeys result
-	Class  string   `json:"class"`            // result class
+	Val    string   `json:"val,omitempty"`  // value written
+	Out    string   `json:"out,omitempty"`  // value read
+	Keys   []string `json:"keys,omitempty"` // GetKeys result
+	Class  string   `json:"class"`          // result class
 	Err    string   `json:"err,omitempty"`
 	Call   int64    `json:"call"`
 	Ret    int64    `json:"ret"` // 0 while open
